@@ -82,7 +82,9 @@ PARTIAL = [
 ]
 RULE = (
     "loop: hand-written + random client programs (1-3 clients: sleep / connect / hold / close; idle_timeout 2..8 quanta of "
-    "1/8 s against the 4-quanta accept timeout; max_connections None/1; idle_timeout None with an external close), every "
+    "1/8 s against the 4-quanta accept timeout; max_connections None/1; idle_timeout None with an external close; scripted "
+    "descheduling of the accept loop after accept(), of a connection's thread before its first statement, of a handler before "
+    "its final section and of a fired timer callback, for 1..9 quanta while logical time passes), every "
     "schedule with <= 2 (quick) / 3 (thorough) preemptions (capped) + PCT/random walks + the 'stall' family (one thread eager, then "
     "starved, enumerated over thread and switch point); launcher: 2-4 launcher threads over 1-2 "
     "command hashes (cold start, reuse, worker idle-exit racing a launch, scripted spawn failure, zero lock timeout, explicit "
@@ -187,21 +189,38 @@ def _mods() -> tuple[Any, Any]:
 # =====================================================================================================================
 
 
+def _delay(cfg: dict[str, Any], kind: str, ident: int) -> int:
+    """Scripted descheduling (quanta) of one thread at one point: cfg["delays"][kind] = [[id, quanta], …].  Logical time only
+    passes while every thread is blocked, so "thread X has not yet run while time passes" has to be a blocked state: the
+    thread sleeps on the logical clock at the point in question (accept loop right after accept() returned; a connection's
+    thread before its first statement; a handler between the end of the service and its final section; a timer callback
+    between firing and taking the lock)."""
+    for i, d in cfg.get("delays", {}).get(kind, []):
+        if i == ident:
+            return int(d)
+    return 0
+
+
 class _Conn:
-    def __init__(self, cid: int) -> None:
+    def __init__(self, cid: int, ds: DetSched | None = None, cfg: dict[str, Any] | None = None) -> None:
         self.cid = cid
         self.client_closed = False
+        self._ds, self._cfg = ds, cfg or {}
 
     def settimeout(self, t: Any) -> None:
-        pass
+        # first thing the accept loop does with a connection accept() returned: the loop thread may be descheduled here
+        d = _delay(self._cfg, "accept", self.cid)
+        if d and self._ds is not None:
+            self._ds.time.sleep(d * Q)
 
     def fileno(self) -> int:
         return 100 + self.cid
 
 
 class _Listener:
-    def __init__(self, ds: DetSched) -> None:
+    def __init__(self, ds: DetSched, cfg: dict[str, Any] | None = None) -> None:
         self.ds = ds
+        self.cfg = cfg or {}
         self.backlog: list[_Conn] = []
         self.timeout: float | None = None
         self.closed = False
@@ -230,7 +249,10 @@ class _Transport:
         self.conn = conn
 
     def close(self) -> None:
-        pass
+        # between the end of the service and the handler's final critical section
+        d = _delay(self.conn._cfg, "end", self.conn.cid)
+        if d and self.conn._ds is not None:
+            self.conn._ds.time.sleep(d * Q)
 
 
 class _Server:
@@ -250,6 +272,7 @@ class _Obs:
     def __init__(self) -> None:
         self.cells: dict[str, Any] = {}
         self.timers: list[Any] = []
+        self.delayed: set[int] = set()
 
     def learn(self, fn: Any) -> None:
         if self.cells.keys() >= {"conn_count", "timer", "shutdown_requested"}:
@@ -279,13 +302,27 @@ class _Obs:
         return [self.cells["conn_count"].cell_contents, k, bool(self.cells["shutdown_requested"].cell_contents)]
 
 
-def _loop_threading(ds: DetSched, obs_ref: list[_Obs]) -> Any:
+def _loop_threading(ds: DetSched, obs_ref: list[_Obs], cfg: dict[str, Any] | None = None) -> Any:
     """`ds.threading` with an observed Lock (the real variables are read just before every release) and Thread / Timer
     factories that remember the closures they are given."""
     base = ds.threading
     from harness.common.detsched import FakeLock
 
+    cfg = cfg or {}
+
     class ObservedLock(FakeLock):
+        def acquire(self, blocking: bool = True, timeout: float = -1) -> bool:
+            # a timer callback that has fired may be descheduled before it gets to the lock
+            me = ds.tid()
+            for k, t in enumerate(obs_ref[0].timers):
+                tt = getattr(t, "_t", None)
+                if tt is not None and tt.tid == me and k not in obs_ref[0].delayed:
+                    obs_ref[0].delayed.add(k)
+                    d = _delay(cfg, "callback", k)
+                    if d:
+                        ds.time.sleep(d * Q)
+            return super().acquire(blocking, timeout)
+
         def release(self) -> None:
             snap = obs_ref[0].snapshot()
             if snap is not None:
@@ -300,6 +337,16 @@ def _loop_threading(ds: DetSched, obs_ref: list[_Obs]) -> Any:
             tgt = k.get("target")
             if tgt is not None:
                 obs_ref[0].learn(tgt)
+                args = tuple(k.get("args", ()))
+                if args and isinstance(args[0], _Conn):
+                    d = _delay(cfg, "start", args[0].cid)
+                    if d:
+                        # the connection's thread exists but is descheduled before its first statement
+                        def late(*aa: Any, _t: Any = tgt, _d: int = d, **kk: Any) -> Any:
+                            ds.time.sleep(_d * Q)
+                            return _t(*aa, **kk)
+
+                        k = dict(k, target=late)
             return base.Thread(*a, **k)
 
         def Timer(self, interval: float, function: Any, *a: Any, **k: Any) -> Any:  # noqa: N802
@@ -324,7 +371,7 @@ def _client(ds: DetSched, lst: _Listener, cid: int, prog: list[list[Any]]) -> No
             if lst.closed or lst.left:
                 ds.emit("refused", cid)
                 return
-            conn = _Conn(cid)
+            conn = _Conn(cid, ds, lst.cfg)
             lst.backlog.append(conn)
             ds.emit("connect", cid)
         elif op[0] == "close":
@@ -348,11 +395,11 @@ def _loop_main(ds: DetSched, T: Any, lst: _Listener, cfg: dict[str, Any]) -> Non
 def loop_sched(T: Any, cfg: dict[str, Any]) -> tuple[DetSched, Any]:
     ds = DetSched(step_limit=40000, wall_limit=30.0, trace_time=False)
     obs_ref = [_Obs()]
-    ds.patch(T, threading=_loop_threading(ds, obs_ref))
+    ds.patch(T, threading=_loop_threading(ds, obs_ref, cfg))
 
     def setup(ds_: DetSched) -> Any:
         obs_ref[0] = _Obs()
-        lst = _Listener(ds_)
+        lst = _Listener(ds_, cfg)
         ds_.spawn(_loop_main, ds_, T, lst, cfg, name="loop")
         for i, prog in enumerate(cfg["clients"]):
             ds_.spawn(_client, ds_, lst, i, prog, name=f"client{i}")
@@ -379,6 +426,7 @@ def loop_analyse(cfg: dict[str, Any], run: Any) -> dict[str, Any]:
     last_vars: list[Any] | None = None
     accepted = 0
     n_timers = 0
+    begun: set[int] = set()
     for idx, ev in enumerate(tr):
         k, tid = ev[0], ev[1]
         if k == "tick-auto":
@@ -403,7 +451,17 @@ def loop_analyse(cfg: dict[str, Any], run: Any) -> dict[str, Any]:
             labels.append(["sockAccept", ev[2]])
             events.append(["acc", ev[2], now])
             lconn = ev[2]
-            lphase = "register"
+            # how many critical sections does the loop thread run before it starts the connection's thread?  two = count the
+            # connection, then `active.add`; one = `active.add` only (the counting is done elsewhere — the model says where)
+            n_cs = 0
+            for e2 in tr[idx + 1:]:
+                if e2[1] != LOOP:
+                    continue
+                if e2[0] == "rel":
+                    n_cs += 1
+                elif e2[0] in ("spawn", "accept", "accept-timeout", "accept-error"):
+                    break
+            lphase = "register" if n_cs >= 2 else "add"
             accepted += 1
         elif k == "accept-timeout":
             labels.append(["acceptTimeout"])
@@ -446,7 +504,10 @@ def loop_analyse(cfg: dict[str, Any], run: Any) -> dict[str, Any]:
                 else:
                     anomalies.append(f"loop thread ran a critical section in phase {lphase}")
             elif tid in handlers:
-                labels.append(["handlerEnd", handlers[tid], armed])
+                if handlers[tid] in begun:
+                    labels.append(["handlerEnd", handlers[tid], armed])
+                else:  # a critical section of the connection's thread BEFORE it serves: it counts its own connection
+                    labels.append(["hregister", handlers[tid]])
             elif tid in timers:
                 labels.append(["callback", timers[tid]])
             else:
@@ -464,6 +525,7 @@ def loop_analyse(cfg: dict[str, Any], run: Any) -> dict[str, Any]:
             if tid in handlers:
                 labels.append(["semRel", handlers[tid]])
         elif k == "serve-begin":
+            begun.add(ev[2])
             labels.append(["serveBegin", ev[2]])
         elif k == "serve-end":
             labels.append(["serveEnd", ev[2]])
@@ -536,6 +598,7 @@ def loop_judge(ctx: Any, cfg: dict[str, Any], run: Any, an: dict[str, Any], mode
     ctx.case(case, nontrivial=an["accepted"] >= 1, tags=(
         "k:loop", f"loop:{run.kind}", f"loop:pre{min(run.preemptions, 4)}", f"loop:idle{idle}",
         "loop:sem" if cfg.get("maxconn") is not None else "loop:nosem",
+        *[f"loop:delay:{kind}" for kind, v in sorted(cfg.get("delays", {}).items()) if v],
         f"loop:accepted{min(an['accepted'], 3)}", f"loop:timers{min(an['timers'], 4)}",
         "loop:idle-stop" if an["stops"] else ("loop:error-stop" if an["returned"] else "loop:no-stop"),
         f"loop:src:{cfg.get('src', 'gen')}"))
@@ -654,6 +717,19 @@ LOOP_CORPUS: list[dict[str, Any]] = [
     # the listener breaks while a timer is armed
     {"idle": 5, "clients": [[["connect"], ["close"], ["sleep", 2], ["shutdown"]]]},
 ]
+# "a thread that has not yet run while time passes" (scripted descheduling, see `_delay`)
+LOOP_CORPUS += [
+    # the connection's thread is started but does not run until after the loop's next accept timeout, and the connection arrives
+    # exactly when the idle timer is due: whoever counts the connection must have done so before the timer's decision counts
+    {"idle": 3, "delays": {"start": [[1, 5]]}, "clients": [[["connect"], ["close"]], [["sleep", 3], ["connect"], ["sleep", 8], ["close"]]]},
+    {"idle": 6, "delays": {"start": [[1, 5]]}, "clients": [[["connect"], ["close"]], [["sleep", 6], ["connect"], ["close"]]]},
+    # the accept loop itself is descheduled right after accept() returned (the uncounted connection sits in the loop thread)
+    {"idle": 3, "delays": {"accept": [[1, 5]]}, "clients": [[["connect"], ["close"]], [["sleep", 3], ["connect"], ["sleep", 8], ["close"]]]},
+    # a fired callback that reaches the lock late, and a handler that reaches its final section late
+    {"idle": 3, "delays": {"callback": [[1, 2]], "end": [[0, 2]]}, "clients": [[["connect"], ["close"]], [["sleep", 4], ["connect"], ["sleep", 6], ["close"]]]},
+    # the very first connection arrives when the start-up grace timer is due and its thread is late
+    {"idle": 4, "delays": {"start": [[0, 5]]}, "clients": [[["sleep", 480], ["connect"], ["sleep", 9], ["close"]]]},
+]
 # start-up grace (60 s = 480 quanta, 120 accept timeouts): long runs, few schedules
 LOOP_GRACE: list[dict[str, Any]] = [
     {"idle": 4, "clients": []},
@@ -679,6 +755,13 @@ def gen_loop(rng: Any) -> dict[str, Any]:
     cfg: dict[str, Any] = {"idle": idle, "clients": clients, "src": "gen"}
     if rng.random() < 0.25:
         cfg["maxconn"] = 1
+    if rng.random() < 0.6:  # descheduled threads: one or two delay points, lengths around the accept timeout (4) and idle
+        delays: dict[str, list[list[int]]] = {}
+        for _ in range(rng.choice([1, 1, 2])):
+            kind = rng.choice(["start", "start", "accept", "end", "callback"])
+            ident = rng.randrange(n) if kind != "callback" else rng.choice([0, 1, 1, 2])
+            delays.setdefault(kind, []).append([ident, rng.choice([1, 3, 4, 5, 5, idle, idle + 1, 9])])
+        cfg["delays"] = delays
     return cfg
 
 
@@ -1465,7 +1548,7 @@ def check_meta(ctx: Any, T: Any, L: Any) -> None:
     shapes = {k: g[k] for k in ("sharedUnderLock", "loopShape", "handlerShape", "timerShape", "launchShape", "gcShape", "workerExitShape")}
     ctx.note("shape_facts", shapes)
     ctx.note("repair_shapes", {"clearsFlagOnAccept": g["clearsFlagOnAccept"], "callbackChecksCurrent": g["callbackChecksCurrent"],
-                               "filelockChecksNlink": g["filelockChecksNlink"]})
+                               "registersInHandler": g["registersInHandler"], "filelockChecksNlink": g["filelockChecksNlink"]})
     # serve_unix / serve_tcp refuse idle_timeout without threaded=True (the idle logic lives in the threaded loop only)
     for fn, args in ((T.serve_unix, ("/nonexistent/x.sock",)), (T.serve_tcp, ())):
         c = {"meta": f"{fn.__name__}(idle_timeout=1, threaded=False)"}
